@@ -107,6 +107,42 @@ def iterator_controlled(body, blocks):
     return bool(exhaustion_exits(body, blocks))
 
 
+def const_guarded(body, blocks, local_name):
+    """`while counter < CONST { … }`: a block of the loop computes `Lt/Le(counter, constant)` from a plain copy of the
+    counter and switches on it, the false edge leaving the loop. With the counter stepping up by a positive constant
+    every round (observed separately) at most CONST rounds run."""
+    def is_counter(op, blk):
+        if op.get("k") not in ("copy", "move") or op["place"]["p"]:
+            return False
+        l = op["place"]["l"]
+        if body.local_name(l) == local_name:
+            return True
+        # a temporary that is a plain copy of the counter, made in the same block
+        for s_ in blk["stmts"]:
+            if s_["k"] == "assign" and s_["place"] == {"l": l, "p": []} and s_["rv"]["k"] == "use":
+                o = s_["rv"]["op"]
+                if o.get("k") in ("copy", "move") and not o["place"]["p"] and body.local_name(o["place"]["l"]) == local_name:
+                    return True
+        return False
+
+    for i in blocks:
+        blk = body.blocks[i]
+        t = blk["term"]
+        if t["k"] != "switch" or t["discr"].get("k") not in ("copy", "move"):
+            continue
+        d = t["discr"]["place"]
+        for s_ in blk["stmts"]:
+            if s_["k"] != "assign" or s_["place"] != d or s_["rv"]["k"] != "binop" or s_["rv"]["op"] not in ("Lt", "Le"):
+                continue
+            if not (is_counter(s_["rv"]["a"], blk) and s_["rv"]["b"].get("k") == "int"):
+                continue
+            # false (0) leaves the loop, true stays
+            exits = [tgt for val, tgt in t["targets"] if val == 0]
+            if exits and all(e not in blocks for e in exits) and t["otherwise"] in blocks:
+                return s_["rv"]["b"]["v"]
+    return None
+
+
 def analyse_roots(prog, rep, roots, reach, crate_filter=LIB):
     findings = []
     visited = set()
@@ -222,12 +258,15 @@ def run(tier):
                 steps = {e["step"] for e in ev if e.get("local") == loc and e.get("step") not in (None, 0)}
                 inv = any("ltc" in (e.get("invariants_hold") or []) for e in ev if e.get("local") == loc)
                 down, up = [s for s in steps if s < 0], [s for s in steps if s > 0]
-                if (not down or no_wrap) and (not up or inv):
+                bound = const_guarded(b, blocks, loc) if (up and not down and not inv) else None
+                if (not down or no_wrap) and (not up or inv or bound is not None):
                     okk = True
                     parts = []
                     if down:
                         parts.append("decreases by %s each round and every decrement is proved not to wrap: at most `initial value` rounds" % sorted(down))
-                    if up:
+                    if up and bound is not None and not inv:
+                        parts.append("increases by %s each round and the loop is entered only while `counter < %d` (a constant): at most %d rounds" % (sorted(up), bound + 1, bound + 1))
+                    elif up:
                         parts.append("increases by %s each round and `counter < chars().count()` is re-established every round" % sorted(up))
                     why = "counter `%s` %s" % (loc, "; on other paths it ".join(parts))
                     break
